@@ -223,6 +223,7 @@ def run(chk):
     chk.traces += len(states)
     chk.mark("replay")
     bundled(chk, rng, thorough)
+    registries_do_not_share_symbols(chk)
     chk.mark("bundled")
     quantities(chk, rng)
     return chk.finish(
@@ -416,6 +417,29 @@ def quantities(chk, rng):
                     continue
                 if not (a == b == c):
                     chk.diverge({"clause": "default-format", "type": T.__name__}, {"default_format": dflt, "str": a, "empty-spec": b, "explicit": c})
+
+
+def registries_do_not_share_symbols(chk):
+    """what a unit is called is the registry's own business: two registries in one process giving different symbols to one unit name
+    each render - and read back - their own"""
+    import pint
+    regs = []
+    for sym in ("sm", "smt"):
+        r = pint.UnitRegistry()
+        r.define("smoot = 1.7018 * meter = %s" % sym)
+        regs.append((r, sym))
+    for rnd in range(2):
+        for r, sym in regs:
+            for name, want in (("smoot", sym), ("kilosmoot", "k" + sym), ("smoot / second", sym + " / s")):
+                chk.case(("two-registries", rnd, sym, name))
+                try:
+                    text = format(r.Quantity(1, name).units, "~")
+                    back = r.parse_units(text)
+                except Exception as e:
+                    chk.diverge({"clause": "two-registries-raises", "exc": type(e).__name__}, {"symbol": sym, "unit": name, "round": rnd})
+                    continue
+                if text != want or back != r.parse_units(name):
+                    chk.diverge({"clause": "symbol-of-another-registry"}, {"symbol": sym, "unit": name, "text": text, "expected": want, "round": rnd})
 
 
 def replay(chk, rec):
